@@ -29,43 +29,62 @@ type Op struct {
 
 // Input is the replay format of one history.
 type Input struct {
-	Guarded bool `json:"guarded"`
-	Ops     []Op `json:"ops"`
+	Kind    string      `json:"kind,omitempty"` // "" = account.DB history, "coins", "multi"
+	Guarded bool        `json:"guarded"`
+	Ops     []Op        `json:"ops,omitempty"`
+	Coins   *CoinsInput `json:"coins,omitempty"`
+	Multi   *MultiInput `json:"multi,omitempty"`
 }
 
 type obsOut struct {
-	Res  string     `json:"res"`
-	Read [][2]int64 `json:"read"`
+	Res  string      `json:"res"`
+	Read [][2]int64  `json:"read"`
+	Rcpt interface{} `json:"rcpt,omitempty"`
 }
 
 var cfg *types.Chain33Config
 var miners []string
 
-const maxAmount = int64(100000000000000000)    // MaxCoin * precision
-const maxToken = int64(9000000000000000000)    // MaxTokenBalance
+const maxAmount = int64(100000000000000000) // MaxCoin * precision
+const maxToken = int64(9000000000000000000) // MaxTokenBalance
 
-// ---- interning of byte strings into a let-table of the Coq term
+// ---- interning of byte strings and storage keys into a let-table of the Coq term
 
 type table struct {
 	names map[string]string
-	order []string
+	order []string // binding lines "name := term"
 }
 
-func (t *table) ref(s string) string {
-	if n, ok := t.names[s]; ok {
+func newTable() *table { return &table{names: map[string]string{}} }
+
+func (t *table) bind(prefix, key, term string) string {
+	if n, ok := t.names[key]; ok {
 		return n
 	}
-	n := fmt.Sprintf("b%d", len(t.order))
-	t.names[s] = n
-	t.order = append(t.order, s)
+	n := fmt.Sprintf("%s%d", prefix, len(t.order))
+	t.names[key] = n
+	t.order = append(t.order, n+" := "+term)
 	return n
+}
+
+func (t *table) ref(s string) string { return t.bind("b", "s:"+s, hlib.Hx([]byte(s))) }
+
+// keyTerm parses the part of a storage key after the ledger prefix.
+func (t *table) keyTerm(rest string) string {
+	if strings.HasPrefix(rest, "exec-") {
+		p := strings.SplitN(rest[5:], ":", 2)
+		if len(p) == 2 {
+			return t.bind("k", "k:"+rest, hlib.App("SubK", t.ref(p[0]), t.ref(p[1])))
+		}
+	}
+	return t.bind("k", "k:"+rest, hlib.App("MainK", t.ref(rest)))
 }
 
 func (t *table) wrap(body string) string {
 	var sb strings.Builder
 	sb.WriteString("(")
-	for _, s := range t.order {
-		sb.WriteString("let " + t.names[s] + " := " + hlib.Hx([]byte(s)) + " in ")
+	for _, b := range t.order {
+		sb.WriteString("let " + b + " in ")
 	}
 	sb.WriteString(body + ")")
 	return sb.String()
@@ -98,47 +117,52 @@ func resClass(err error) string {
 }
 
 func call(acc *account.DB, o Op) (res string) {
+	res, _ = callR(acc, o)
+	return res
+}
+
+func callR(acc *account.DB, o Op) (res string, rc *types.Receipt) {
 	defer func() {
 		if r := recover(); r != nil {
-			res = "RPanic"
+			res, rc = "RPanic", nil
 		}
 	}()
 	var err error
 	switch o.Op {
 	case "Transfer":
-		_, err = acc.Transfer(o.A, o.B, o.Amt)
+		rc, err = acc.Transfer(o.A, o.B, o.Amt)
 	case "TransferToExec":
-		_, err = acc.TransferToExec(o.A, o.B, o.Amt)
+		rc, err = acc.TransferToExec(o.A, o.B, o.Amt)
 	case "TransferWithdraw":
-		_, err = acc.TransferWithdraw(o.A, o.B, o.Amt)
+		rc, err = acc.TransferWithdraw(o.A, o.B, o.Amt)
 	case "ExecFrozen":
-		_, err = acc.ExecFrozen(o.A, o.X, o.Amt)
+		rc, err = acc.ExecFrozen(o.A, o.X, o.Amt)
 	case "ExecActive":
-		_, err = acc.ExecActive(o.A, o.X, o.Amt)
+		rc, err = acc.ExecActive(o.A, o.X, o.Amt)
 	case "ExecTransfer":
-		_, err = acc.ExecTransfer(o.A, o.B, o.X, o.Amt)
+		rc, err = acc.ExecTransfer(o.A, o.B, o.X, o.Amt)
 	case "ExecTransferFrozen":
-		_, err = acc.ExecTransferFrozen(o.A, o.B, o.X, o.Amt)
+		rc, err = acc.ExecTransferFrozen(o.A, o.B, o.X, o.Amt)
 	case "ExecDeposit":
-		_, err = acc.ExecDeposit(o.A, o.X, o.Amt)
+		rc, err = acc.ExecDeposit(o.A, o.X, o.Amt)
 	case "ExecWithdraw":
-		_, err = acc.ExecWithdraw(o.X, o.A, o.Amt)
+		rc, err = acc.ExecWithdraw(o.X, o.A, o.Amt)
 	case "ExecDepositFrozen":
-		_, err = acc.ExecDepositFrozen(o.A, o.X, o.Amt)
+		rc, err = acc.ExecDepositFrozen(o.A, o.X, o.Amt)
 	case "ExecIssueCoins":
-		_, err = acc.ExecIssueCoins(o.X, o.Amt)
+		rc, err = acc.ExecIssueCoins(o.X, o.Amt)
 	case "Mint":
-		_, err = acc.Mint(o.A, o.Amt)
+		rc, err = acc.Mint(o.A, o.Amt)
 	case "Burn":
-		_, err = acc.Burn(o.A, o.Amt)
+		rc, err = acc.Burn(o.A, o.Amt)
 	case "GenesisInit":
-		_, err = acc.GenesisInit(o.A, o.Amt)
+		rc, err = acc.GenesisInit(o.A, o.Amt)
 	case "GenesisInitExec":
-		_, err = acc.GenesisInitExec(o.A, o.Amt, o.X)
+		rc, err = acc.GenesisInitExec(o.A, o.Amt, o.X)
 	default:
 		panic("unknown op " + o.Op)
 	}
-	return resClass(err)
+	return resClass(err), rc
 }
 
 type query struct {
@@ -238,17 +262,7 @@ func (e *ledgerEnv) dump(t *table) ([]string, []dumpEnt) {
 			panic("foreign key in ledger db: " + string(k))
 		}
 		rest := string(k[len(e.prefix):])
-		var kt string
-		if strings.HasPrefix(rest, "exec-") {
-			p := strings.SplitN(rest[5:], ":", 2)
-			if len(p) != 2 {
-				panic("unparsable exec key " + rest)
-			}
-			kt = hlib.App("SubK", t.ref(p[0]), t.ref(p[1]))
-		} else {
-			kt = hlib.App("MainK", t.ref(rest))
-		}
-		terms = append(terms, hlib.App("DE", kt, t.ref(a.Addr), zlit(a.Balance), zlit(a.Frozen)))
+		terms = append(terms, hlib.App("DE", t.keyTerm(rest), t.ref(a.Addr), zlit(a.Balance), zlit(a.Frozen)))
 		ents = append(ents, dumpEnt{rest, a.Addr, a.Balance, a.Frozen})
 	}
 	return terms, ents
@@ -257,12 +271,12 @@ func (e *ledgerEnv) dump(t *table) ([]string, []dumpEnt) {
 // runHistory executes ops on a fresh ledger and emits the case.
 func runHistory(out *hlib.Out, kind string, guarded bool, ops []Op) {
 	env := newEnv()
-	t := &table{names: map[string]string{}}
+	t := newTable()
 	var items []string
 	var impl []obsOut
 	okCount := 0
 	for _, o := range ops {
-		res := call(env.acc, o)
+		res, rc := callR(env.acc, o)
 		if res == "ROk" {
 			okCount++
 		}
@@ -273,8 +287,9 @@ func runHistory(out *hlib.Out, kind string, guarded bool, ops []Op) {
 			rb = append(rb, v)
 			rbs = append(rbs, hlib.App("P", zlit(v[0]), zlit(v[1])))
 		}
-		items = append(items, hlib.App("Ob", coqOp(t, o), res, hlib.List(rbs)))
-		impl = append(impl, obsOut{res, rb})
+		rcTerm, rcOut := receiptTerm(t, env.prefix, rc)
+		items = append(items, hlib.App("Ob", coqOp(t, o), res, hlib.List(rbs), rcTerm))
+		impl = append(impl, obsOut{res, rb, rcOut})
 	}
 	dterms, dents := env.dump(t)
 	ms := make([]string, len(miners))
@@ -282,7 +297,7 @@ func runHistory(out *hlib.Out, kind string, guarded bool, ops []Op) {
 		ms[i] = t.ref(m)
 	}
 	body := hlib.App("Hist", hlib.Bool(guarded), hlib.List(ms), hlib.List(items), hlib.List(dterms))
-	out.Emit(kind, okCount >= 3, t.wrap(body), Input{guarded, ops},
+	out.Emit(kind, okCount >= 3, t.wrap(body), Input{Guarded: guarded, Ops: ops},
 		map[string]interface{}{"ops": impl, "dump": dents})
 }
 
@@ -425,6 +440,9 @@ func (g *gen) funded(sub, frozen bool) (res [][2]string) {
 		if types.Decode(it.Value(), &a) != nil {
 			continue
 		}
+		if !bytes.HasPrefix(it.Key(), g.env.prefix) {
+			continue // another ledger of a shared store
+		}
 		rest := string(it.Key()[len(g.env.prefix):])
 		isSub := strings.HasPrefix(rest, "exec-")
 		if isSub != sub || (!frozen && a.Balance <= 0) || (frozen && a.Frozen <= 0) {
@@ -432,6 +450,9 @@ func (g *gen) funded(sub, frozen bool) (res [][2]string) {
 		}
 		if isSub {
 			p := strings.SplitN(rest[5:], ":", 2)
+			if len(p) != 2 {
+				continue
+			}
 			res = append(res, [2]string{p[1], p[0]})
 		} else {
 			res = append(res, [2]string{rest, ""})
@@ -603,11 +624,16 @@ func (g *gen) guardOK(o Op) bool {
 	return true
 }
 
-func genHistory(w *world, r *hlib.Rng, guarded bool, n int, aliasPct int) []Op {
-	g := &gen{w: w, r: r, env: newEnv(), guarded: guarded, mainBud: big.NewInt(0), subBud: big.NewInt(0), aliasPct: aliasPct}
+func newGen(w *world, r *hlib.Rng, env *ledgerEnv, guarded bool, aliasPct int) *gen {
+	g := &gen{w: w, r: r, env: env, guarded: guarded, mainBud: big.NewInt(0), subBud: big.NewInt(0), aliasPct: aliasPct}
 	for range w.execs {
 		g.execSp = append(g.execSp, r.Intn(8))
 	}
+	return g
+}
+
+func genHistory(w *world, r *hlib.Rng, guarded bool, n int, aliasPct int) []Op {
+	g := newGen(w, r, newEnv(), guarded, aliasPct)
 	var ops []Op
 	// funding prologue so that most later operations have something to move
 	pro := r.Range(0, 4)
@@ -709,6 +735,7 @@ func main() {
 	for _, e := range cfg.GetMinerExecs() {
 		miners = append(miners, address.ExecAddress(cfg.ExecName(e)))
 	}
+	initCoins()
 	out := hlib.NewOut(opts.OutDir)
 	defer out.Close()
 	if opts.Replay != "" {
@@ -716,14 +743,23 @@ func main() {
 		if err := hlib.ReplayInput(opts.Replay, &in); err != nil {
 			panic(err)
 		}
-		runHistory(out, "replay", in.Guarded, in.Ops)
+		switch in.Kind {
+		case "coins":
+			runCoins(out, "replay", in.Guarded, in.Coins)
+		case "multi":
+			runMulti(out, "replay", in.Multi)
+		default:
+			runHistory(out, "replay", in.Guarded, in.Ops)
+		}
 		return
 	}
 	r := hlib.NewRng(opts.Seed)
 	directed(out, r.Fork())
-	nG, nU := 220, 220
+	directedCoins(out, r.Fork())
+	directedMulti(out, r.Fork())
+	nG, nU, nC, nM := 130, 130, 140, 50
 	if opts.Thorough() {
-		nG, nU = 6000, 6000
+		nG, nU, nC, nM = 5000, 5000, 5000, 2000
 	}
 	// small histories first
 	for i := 0; i < nG+nU; i++ {
@@ -743,5 +779,13 @@ func main() {
 			}
 			runHistory(out, "unrestricted", false, genHistory(w, r.Fork(), false, n, alias))
 		}
+	}
+	for i := 0; i < nC; i++ {
+		maxLen := 3 + (i*40)/nC
+		genCoins(out, r.Fork(), r.Range(1, maxLen))
+	}
+	for i := 0; i < nM; i++ {
+		maxLen := 4 + (i*30)/nM
+		genMulti(out, r.Fork(), r.Range(2, maxLen))
 	}
 }
